@@ -2,6 +2,7 @@
 import ast
 import z3
 from .ty import *
+from .state import key_alloc
 from .state import State, dtype
 
 I = z3.IntSort()
@@ -794,6 +795,14 @@ class ExprMixin:
                     self.check(st, z3.Not(opt_is_none(res)), 'AttributeError', 'absent', node)
             else:
                 res = SV(ty, z3.Function('const_%s_%s' % (c, attr), Ref, sort_of(ty))(v.z))
+                if sort_of(ty) == Ref and getattr(self, 'entry', None) is not None:
+                    # a const field is set at construction and never reassigned: what an object that existed at entry refers to
+                    # through it existed at entry too (so the frame rule 'entry objects outside modifies are unchanged' applies to it)
+                    ea = self.entry.H(key_alloc())
+                    fact = z3.Implies(z3.And(z3.Select(ea, v.z), res.z != NULL), z3.Select(ea, res.z))
+                    st.assume(fact)
+                    if hasattr(self, '_typing_ids'):
+                        self._typing_ids.add(fact.get_id())
             self.assume_typed(res, st, depth=0)
             yield res, st
             return
